@@ -191,29 +191,29 @@ type ReplayFile struct {
 
 // Partial is what one shard reports to the driver.
 type Partial struct {
-	Property     string         `json:"property"`
-	Shard        int            `json:"shard"`
-	Evaluations  int64          `json:"evaluations"`
-	Corpus       int64          `json:"corpus_cases"`
-	Enumerated   int64          `json:"enumerated_cases"`
-	Random       int64          `json:"random_cases"`
-	NonTrivial   int64          `json:"nontrivial_evaluations"`
-	EnumComplete bool           `json:"enum_complete"`
-	HasEnum      bool           `json:"has_enum"`
-	EnumNote     string         `json:"enum_note,omitempty"`
-	Classes      map[string]int `json:"classes"`
-	OutOfClaim   map[string]int `json:"excluded_out_of_claim"`
-	Known        map[string]int `json:"excluded_known"`
+	Property     string            `json:"property"`
+	Shard        int               `json:"shard"`
+	Evaluations  int64             `json:"evaluations"`
+	Corpus       int64             `json:"corpus_cases"`
+	Enumerated   int64             `json:"enumerated_cases"`
+	Random       int64             `json:"random_cases"`
+	NonTrivial   int64             `json:"nontrivial_evaluations"`
+	EnumComplete bool              `json:"enum_complete"`
+	HasEnum      bool              `json:"has_enum"`
+	EnumNote     string            `json:"enum_note,omitempty"`
+	Classes      map[string]int    `json:"classes"`
+	OutOfClaim   map[string]int    `json:"excluded_out_of_claim"`
+	Known        map[string]int    `json:"excluded_known"`
 	KnownWhat    map[string]string `json:"known_what"`
-	Samples      []any          `json:"samples"`
-	Violations   []ViolationRec `json:"violations"`
-	Extra        map[string]any `json:"extra,omitempty"`
-	Rule         string         `json:"rule"`
-	Level        string         `json:"level"`
-	Assumptions  []string       `json:"assumptions"`
-	WallS        float64        `json:"wall_s"`
-	HashFile     string         `json:"hash_file"`
-	HashCapped   bool           `json:"hash_capped,omitempty"`
+	Samples      []any             `json:"samples"`
+	Violations   []ViolationRec    `json:"violations"`
+	Extra        map[string]any    `json:"extra,omitempty"`
+	Rule         string            `json:"rule"`
+	Level        string            `json:"level"`
+	Assumptions  []string          `json:"assumptions"`
+	WallS        float64           `json:"wall_s"`
+	HashFile     string            `json:"hash_file"`
+	HashCapped   bool              `json:"hash_capped,omitempty"`
 }
 
 type ViolationRec struct {
